@@ -190,7 +190,7 @@ def run_config(cfg):
                 i += 1
             else:
                 extras.append((d, load))
-        c.check(i == len(plain) and len(plain) >= 2, "plain-packets-preserved-in-order", "%d of %d plain packets found in order in the -a output" % (i, len(plain)))
+        c.check(i == len(plain) and (len(plain) >= 2 or not cfg.get("stream_segments")), "plain-packets-preserved-in-order", "%d of %d plain packets found in order in the -a output" % (i, len(plain)))
         if cfg.get("stream_segments"):
             # handshake records cut over several segments are exported in as many pieces: only the application-data part is compared here
             return {"outcome": "plain %d packets, -a %d packets" % (len(plain), len(meta_out))}
